@@ -47,6 +47,14 @@ def small_geometry(rng, dt):
     return spd, sdf, eps, sumdf
 
 
+def ramp_limit(dt):
+    """largest M such that i mod M is representable (non-negative) in the type"""
+    w = WIDTH[dt]
+    if dt.startswith("f"):
+        return 1 << 20
+    return (1 << (w - 1)) if dt.startswith("i") else (1 << min(w, 30))
+
+
 def lit(s):
     return ["lit", s]
 
@@ -93,7 +101,7 @@ def gen_writer_program(rng, x, kind="mixed", types=None, nsig=None, twr=False, m
                    "rate": rng.choice([1000, 1, 48000, 2000000, 1000000000]), "base": base, "tbase": rng.choice([0, 1700000000 * (1 << 30)]),
                    "next": first, "first": first, "end": first + total, "norm": (nspd, nsdf, neps, nsumdf),
                    "defined": False, "nanno": 0, "nutc": 0, "written": 0, "anno_ts": first, "utc_id": first, "utc_t": 0,
-                   "gen": rng.choice(gens) if gens else ["rnd"]}
+                   "gen": rng.choice([g_ for g_ in gens if g_[0] != "ramp" or g_[1] <= ramp_limit(dt)]) if gens else ["rnd"]}
     pending = list(sig_ids)
     # define at least one signal before data; others possibly later
     def define(g):
